@@ -444,6 +444,247 @@ def gen_geometry():
     return "\n".join(out)
 
 
+# ---- arithmetic methods: straight-line Python with `if` over floats and booleans (no loops) becomes
+# nested Lean `let`s; ERP/Lemmas/GenArith.lean proves the model's total functions equal to them.
+_CMPP = {ast.Lt: "<", ast.LtE: "≤", ast.Gt: ">", ast.GtE: "≥"}
+
+
+class _Imp(object):
+    """`env`: name -> 'num' | 'bool' for the variables in scope (`self.x` is the variable `self_x`);
+    `externals`: source text of an expression -> Lean term standing for it (with its type);
+    `calls`: method name -> function(list of translated args) for `self.<method>(...)`."""
+
+    def __init__(self, env, externals=None, skip=(), calls=None):
+        self.env = dict(env)
+        self.externals = externals or {}
+        self.skip = set(skip)
+        self.calls = calls or {}
+
+    def ty(self, n):
+        src = ast.unparse(n)
+        if src in self.externals:
+            return self.externals[src][1]
+        if isinstance(n, (ast.Compare, ast.BoolOp)) or (isinstance(n, ast.UnaryOp) and isinstance(n.op, ast.Not)):
+            return "bool"
+        if isinstance(n, ast.BinOp) and isinstance(n.op, ast.BitXor):
+            return "bool"
+        if isinstance(n, ast.Name):
+            return self.env.get(n.id, "num")
+        if isinstance(n, ast.Attribute) and isinstance(n.value, ast.Name) and n.value.id == "self":
+            return self.env.get("self_" + n.attr, "num")
+        if isinstance(n, ast.IfExp):
+            return self.ty(n.body)
+        if isinstance(n, ast.Constant) and isinstance(n.value, bool):
+            return "bool"
+        return "num"
+
+    def truth(self, n):
+        return self.ex(n) if self.ty(n) == "bool" else "!(%s == 0)" % self.ex(n)    # truthiness of a float
+
+    def ex(self, n):
+        src = ast.unparse(n)
+        if src in self.externals:
+            return self.externals[src][0]
+        if isinstance(n, ast.Constant):
+            if isinstance(n.value, bool):
+                return "true" if n.value else "false"
+            if isinstance(n.value, int) and n.value >= 0:
+                return str(n.value)
+            raise TranslateError("arith: constant %r" % (n.value,))
+        if isinstance(n, ast.Name):
+            if n.id in self.env:
+                return n.id
+            raise TranslateError("arith: free name %s" % n.id)
+        if isinstance(n, ast.Attribute) and isinstance(n.value, ast.Name) and n.value.id == "self" \
+                and "self_" + n.attr in self.env:
+            return "self_" + n.attr
+        if isinstance(n, ast.UnaryOp) and isinstance(n.op, ast.USub):
+            return "-%s" % self.ex(n.operand)
+        if isinstance(n, ast.UnaryOp) and isinstance(n.op, ast.Not):
+            return "!(%s)" % self.truth(n.operand)
+        if isinstance(n, ast.BinOp) and type(n.op) in _BIN:
+            return "(%s %s %s)" % (self.ex(n.left), _BIN[type(n.op)], self.ex(n.right))
+        if isinstance(n, ast.BinOp) and isinstance(n.op, ast.BitXor) and self.ty(n.left) == "bool" \
+                and self.ty(n.right) == "bool":
+            return "(xor %s %s)" % (self.ex(n.left), self.ex(n.right))
+        if isinstance(n, ast.Compare) and len(n.ops) == 1:
+            a, b = self.ex(n.left), self.ex(n.comparators[0])
+            if type(n.ops[0]) in _CMPP:
+                return "(decide (%s %s %s))" % (a, _CMPP[type(n.ops[0])], b)
+            if isinstance(n.ops[0], ast.Eq):
+                return "(%s == %s)" % (a, b)
+            if isinstance(n.ops[0], ast.NotEq):
+                return "!(%s == %s)" % (a, b)
+        if isinstance(n, ast.BoolOp):
+            op = " && " if isinstance(n.op, ast.And) else " || "
+            return "(" + op.join(self.truth(v) for v in n.values) + ")"
+        if isinstance(n, ast.IfExp):
+            return "(if %s then %s else %s)" % (self.cond(n.test), self.ex(n.body), self.ex(n.orelse))
+        if isinstance(n, ast.Call) and not n.keywords:
+            f = ast.unparse(n.func)
+            args = [self.ex(a) for a in n.args]
+            if f == "math.hypot" and len(args) == 2:
+                return "(MathOps.hypot %s %s)" % tuple(args)
+            if f == "math.sqrt" and len(args) == 1:
+                return "(MathOps.sqrt %s)" % args[0]
+            if f == "abs" and len(args) == 1:
+                return "(pyAbs %s)" % args[0]
+            if f == "float" and len(args) == 1:
+                return args[0]
+            if f.startswith("self.") and f[5:] in self.calls:
+                return self.calls[f[5:]](self, args)
+        raise TranslateError("arith: cannot translate %s" % src[:100])
+
+    def cond(self, n):
+        """test of an `if`: a bare order comparison stays a proposition (as in the model)"""
+        if ast.unparse(n) not in self.externals and isinstance(n, ast.Compare) and len(n.ops) == 1 \
+                and type(n.ops[0]) in _CMPP:
+            return "%s %s %s" % (self.ex(n.left), _CMPP[type(n.ops[0])], self.ex(n.comparators[0]))
+        return self.truth(n)
+
+    def target(self, t):
+        if isinstance(t, ast.Name):
+            return t.id
+        if isinstance(t, ast.Attribute) and isinstance(t.value, ast.Name) and t.value.id == "self":
+            return "self_" + t.attr
+        raise TranslateError("arith: assignment target %s" % ast.unparse(t))
+
+    def assigned(self, stmts):
+        out = []
+        for st in stmts:
+            names = []
+            if isinstance(st, ast.Assign):
+                names = [self.target(t) for t in st.targets]
+            elif isinstance(st, ast.AugAssign):
+                names = [self.target(st.target)]
+            elif isinstance(st, ast.If):
+                names = self.assigned(st.body) + self.assigned(st.orelse)
+            for v in names:
+                if v not in out:
+                    out.append(v)
+        return out
+
+    def block(self, stmts, result, ind):
+        """Lean term for `stmts` followed by `result` (an ast node evaluated afterwards, or text)."""
+        pad = "  " * ind
+        stmts = [st for st in stmts if not (isinstance(st, ast.Expr) and isinstance(st.value, ast.Constant))
+                 and ast.unparse(st) not in self.skip]
+        saved = dict(self.env)
+        lines = []
+        for k, st in enumerate(stmts):
+            if isinstance(st, (ast.Assign, ast.AugAssign)):
+                if isinstance(st, ast.Assign):
+                    if len(st.targets) != 1:
+                        raise TranslateError("arith: multiple targets")
+                    name, val, t = self.target(st.targets[0]), self.ex(st.value), self.ty(st.value)
+                else:
+                    if type(st.op) not in _BIN:
+                        raise TranslateError("arith: augmented assignment %s" % ast.unparse(st))
+                    name = self.target(st.target)
+                    if name not in self.env:
+                        raise TranslateError("arith: %s modified before assignment" % name)
+                    val, t = "(%s %s %s)" % (name, _BIN[type(st.op)], self.ex(st.value)), "num"
+                lines.append("%slet %s : %s := %s" % (pad, name, "α" if t == "num" else "Bool", val))
+                self.env[name] = t
+            elif isinstance(st, ast.If) and st.body and isinstance(st.body[-1], ast.Return) and not st.orelse:
+                # early return: `if c: ...; return e` followed by the rest
+                env0 = dict(self.env)
+                then = self.block(st.body[:-1], st.body[-1].value, ind + 2)
+                self.env = env0
+                rest = self.block(stmts[k + 1:], result, ind + 2)
+                lines.append("%sif %s then\n%s\n%selse\n%s" % (pad, self.cond(st.test), then, pad, rest))
+                self.env = saved
+                return "\n".join(lines)
+            elif isinstance(st, ast.If):
+                live = [v for v in self.assigned([st]) if v in self.env]     # defined before: survive the `if`
+                if not live:
+                    raise TranslateError("arith: `if` without effect")
+                tup = "(%s)" % ", ".join(live) if len(live) > 1 else live[0]
+                env0 = dict(self.env)
+                then = self.block(st.body, tup, ind + 2)
+                self.env = dict(env0)
+                els = self.block(st.orelse, tup, ind + 2)
+                self.env = dict(env0)
+                lines.append("%slet %s := if %s then\n%s\n%s  else\n%s" % (pad, tup, self.cond(st.test), then, pad, els))
+            else:
+                raise TranslateError("arith: statement %s" % ast.unparse(st)[:100])
+        if isinstance(result, ast.Tuple):
+            res = "(%s)" % ", ".join(self.ex(e) for e in result.elts)
+        elif isinstance(result, ast.AST):
+            res = self.ex(result)
+        else:
+            res = result
+        lines.append("%s%s" % (pad, res))
+        self.env = saved
+        return "\n".join(lines)
+
+
+def _method(tree, cls, name, params):
+    for c in tree.body:
+        if isinstance(c, ast.ClassDef) and c.name == cls:
+            for f in c.body:
+                if isinstance(f, ast.FunctionDef) and f.name == name:
+                    if [a.arg for a in f.args.args] != ["self"] + params:
+                        raise TranslateError("arith: signature of %s.%s changed" % (cls, name))
+                    return f
+    raise TranslateError("arith: %s.%s not found" % (cls, name))
+
+
+def gen_arith():
+    out = ["import ERP.Model.Handlers",
+           "/-! Generated by harness/translate.py from AxisPosition.py / GcodeHandlers.py — do not edit. -/",
+           "namespace ERP.Gen", "section",
+           "variable {α : Type} [Add α] [Sub α] [Mul α] [Div α] [Neg α] [LT α] [LE α] [BEq α]",
+           "  [OfNat α 0] [OfNat α 1] [OfNat α 2] [DecidableLT α] [DecidableLE α] [MathOps α]", ""]
+    axis = ast.parse(_src("AxisPosition.py"))
+    attrs = ["current", "homeOffset", "offset", "unitMultiplier"]
+    selfenv = dict(("self_" + a, "num") for a in attrs)
+    selfenv["self_absoluteMode"] = "bool"
+    selfparams = "(self_current self_homeOffset self_offset self_unitMultiplier : α) (self_absoluteMode : Bool)"
+    optional = {"value is None": ("valueIsNone", "bool"), "absoluteMode is None": ("absIsNone", "bool")}
+
+    def conv(fname):
+        f = _method(axis, "AxisPosition", fname, ["value", "absoluteMode"])
+        if [ast.unparse(d) for d in f.args.defaults] != ["None", "None"]:
+            raise TranslateError("arith: defaults of AxisPosition.%s changed" % fname)
+        if not isinstance(f.body[-1], ast.Return):
+            raise TranslateError("arith: AxisPosition.%s does not end in return" % fname)
+        imp = _Imp(dict(selfenv, value="num", absoluteMode="bool"), optional)
+        return ("/-- `AxisPosition.%s(value, absoluteMode)`; `valueIsNone` / `absIsNone` say which arguments are\n"
+                "`None` (then the corresponding parameter is not read) -/\n"
+                "def %s %s\n    (value : α) (valueIsNone : Bool) (absoluteMode : Bool) (absIsNone : Bool) : α :=\n%s"
+                % (fname, fname, selfparams, imp.block(f.body[:-1], f.body[-1].value, 1)))
+    out += [conv("logicalToNative"), "", conv("nativeToLogical"), ""]
+
+    def l2n_call(imp, args):
+        if len(args) != 1:
+            raise TranslateError("arith: call of logicalToNative")
+        return "(logicalToNative self_current self_homeOffset self_offset self_unitMultiplier self_absoluteMode %s false true true)" % args[0]
+    for fname, arg, res in (("setLogicalOffsetPosition", "offset", ["self_offset"]),
+                            ("setHomeOffset", "homeOffset", ["self_homeOffset", "self_current"])):
+        f = _method(axis, "AxisPosition", fname, [arg])
+        imp = _Imp(dict(selfenv, **{arg: "num"}), calls={"logicalToNative": l2n_call})
+        got = imp.assigned(f.body)
+        if sorted(v for v in got if v.startswith("self_")) != sorted(res):
+            raise TranslateError("arith: attributes assigned by AxisPosition.%s: %s" % (fname, got))
+        tup = "(%s)" % ", ".join(res) if len(res) > 1 else res[0]
+        out += ["/-- `AxisPosition.%s(%s)`: the new value of %s -/" % (fname, arg, ", ".join(r[5:] for r in res)),
+                "def %s %s (%s : α) : %s :=\n%s" % (fname, selfparams, arg, " × ".join("α" for _ in res),
+                                                   imp.block(f.body, tup, 1)), ""]
+    gh = ast.parse(_src("GcodeHandlers.py"))
+    f = _method(gh, "GcodeHandlers", "computeArcCenterOffsets", ["endX", "endY", "radius", "clockwise"])
+    imp = _Imp({"endX": "num", "endY": "num", "radius": "num", "clockwise": "bool"},
+               {"position.X_AXIS.nativeToLogical()": ("curX", "num"), "position.Y_AXIS.nativeToLogical()": ("curY", "num")},
+               skip=["position = self.state.position"])
+    if not isinstance(f.body[-1], ast.Return):
+        raise TranslateError("arith: computeArcCenterOffsets does not end in return")
+    out += ["/-- `GcodeHandlers.computeArcCenterOffsets`; `curX`, `curY` = the current logical position -/",
+            "def arcCenterOffsets (curX curY endX endY radius : α) (clockwise : Bool) : α × α :=\n"
+            + imp.block(f.body[:-1], f.body[-1].value, 1), ""]
+    out += ["end", "end ERP.Gen", ""]
+    return "\n".join(out)
+
+
 def write_if_changed(path, text):
     old = None
     if os.path.exists(path):
@@ -459,7 +700,8 @@ def main(outdir):
     import warnings
     warnings.simplefilter("ignore")
     changed = []
-    for name, fn in (("Regexes.lean", gen_regexes), ("Consts.lean", gen_consts), ("Geometry.lean", gen_geometry)):
+    for name, fn in (("Regexes.lean", gen_regexes), ("Consts.lean", gen_consts), ("Geometry.lean", gen_geometry),
+                     ("Arith.lean", gen_arith)):
         if write_if_changed(os.path.join(outdir, name), fn()):
             changed.append(name)
     print("translate: ok; changed: %s" % (", ".join(changed) or "nothing"))
